@@ -227,9 +227,11 @@ func runLLMNR(w *rt.World, res *hx.Result, realServer, realClient bool) *hx.Viol
 	}
 	nClients := 1 + hx.G(maxClients)
 	chain := hx.G(4) // 3: the first handler closes the server from inside the handler goroutine when it sees the poison name
-	stopMode := hx.F(10)
+	stopMode := hx.F(11)
 	// modes 3 and 4: at time 0, racing with ListenAndServe; 8: while a handler chain is running; 9: while a SUT task waits for a lock
-	stopAt := [...]int64{0, 0, 0, 0, 0, 50e6, 1e9, 2500e6, 0, 0}[stopMode]
+	// 10: after an exact number of SUT statements from the start of the traffic
+	stopAt := [...]int64{0, 0, 0, 0, 0, 50e6, 1e9, 2500e6, 0, 0, 0}[stopMode]
+	stopAfterPts := 1 + hx.F(700)
 	stopTwice := hx.F(3) == 0
 	clientCloseMode := hx.F(6)
 	strayMode := hx.F(4)
@@ -511,6 +513,10 @@ func runLLMNR(w *rt.World, res *hx.Result, realServer, realClient bool) *hx.Viol
 			case 9:
 				if rt.WaitState(&rt.StateCond{BlockedIn: "sync.Mutex.Lock"}, startT+5e9) {
 					rt.Probe(PStopStateTriggered)
+				}
+			case 10:
+				if rt.AfterPoints(stopAfterPts, startT+2e9) {
+					rt.Probe(PStopAtStatement)
 				}
 			default:
 				rt.SleepUntil(startT + stopAt)
